@@ -33,15 +33,14 @@ def payload (mode : Nat) (vs : List Nat) : Bytes :=
   else if vs.length ≤ 4096 then vs.flatMap (leBytes 2)
   else packFrom 8192 0 vs
 
-/-- Bits packed eight to a byte, least significant first. -/
-def byteOfBits (bs : List Bool) : Nat :=
-  (bs.zipIdx.map (fun (b, i) => if b then 2 ^ i else 0)).sum
+/-- Bit `i` of a bit list (0 past its end). -/
+def bitAt (bs : List Bool) (i : Nat) : Nat := if bs.getD i false then 1 else 0
 
-def packBits : List Bool → Bytes
-  | [] => []
-  | b :: bs => byteOfBits (b :: bs.take 7) :: packBits (bs.drop 7)
-termination_by l => l.length
-decreasing_by simp only [List.length_drop, List.length_cons]; omega
+/-- Bits packed eight to a byte, least significant first: byte `j` holds bits `8j .. 8j+7`. -/
+def packBits (bs : List Bool) : Bytes :=
+  (List.range ((bs.length + 7) / 8)).map (fun j =>
+    bitAt bs (8 * j) + 2 * bitAt bs (8 * j + 1) + 4 * bitAt bs (8 * j + 2) + 8 * bitAt bs (8 * j + 3)
+      + 16 * bitAt bs (8 * j + 4) + 32 * bitAt bs (8 * j + 5) + 64 * bitAt bs (8 * j + 6) + 128 * bitAt bs (8 * j + 7))
 
 def offsetsFrom : Nat → List Bytes → Bytes
   | _, [] => []
